@@ -65,7 +65,7 @@ pub struct C16;
 
 const NAMES: &[&str] = &["accept", "user-agent", "accept-encoding", "x-a", "X-A", "x-b", "connection", "authorization", "Authorization"];
 const VALUES: &[&str] = &["v1", "v2", "text/html", "", "gzip", "agent/1.0", "keep-alive"];
-const MAX_HEADERS: &[usize] = &[1, 3, 100];
+const MAX_HEADERS: &[usize] = &[1, 3, 100, 24_577, usize::MAX];
 const MAX_REDIR: &[u32] = &[0, 1, 5];
 const METHODS: &[&str] = &["GET", "POST", "PUT", "DELETE", "HEAD", "OPTIONS", "PATCH", "TRACE"];
 
@@ -107,7 +107,7 @@ impl Model {
     }
     fn apply(&mut self, s: &Setter) {
         match s {
-            Setter::MaxHeaders(i) => self.max_headers = MAX_HEADERS[*i as usize % 3],
+            Setter::MaxHeaders(i) => self.max_headers = MAX_HEADERS[*i as usize % MAX_HEADERS.len()],
             Setter::MaxRedirections(i) => self.max_redirections = MAX_REDIR[*i as usize % 3],
             Setter::Follow(b) => self.follow = *b,
             Setter::ConnectTimeout(ms) => self.connect_timeout = Duration::from_millis(*ms as u64),
@@ -151,7 +151,7 @@ fn root_cert() -> rustls::pki_types::CertificateDer<'static> {
 
 fn set_session(s: &mut Session, st: &Setter) {
     match st {
-        Setter::MaxHeaders(i) => s.max_headers(MAX_HEADERS[*i as usize % 3]),
+        Setter::MaxHeaders(i) => s.max_headers(MAX_HEADERS[*i as usize % MAX_HEADERS.len()]),
         Setter::MaxRedirections(i) => s.max_redirections(MAX_REDIR[*i as usize % 3]),
         Setter::Follow(b) => s.follow_redirects(*b),
         Setter::ConnectTimeout(ms) => s.connect_timeout(Duration::from_millis(*ms as u64)),
@@ -168,7 +168,7 @@ fn set_session(s: &mut Session, st: &Setter) {
 
 fn set_builder(b: RequestBuilder, st: &Setter) -> RequestBuilder {
     match st {
-        Setter::MaxHeaders(i) => b.max_headers(MAX_HEADERS[*i as usize % 3]),
+        Setter::MaxHeaders(i) => b.max_headers(MAX_HEADERS[*i as usize % MAX_HEADERS.len()]),
         Setter::MaxRedirections(i) => b.max_redirections(MAX_REDIR[*i as usize % 3]),
         Setter::Follow(x) => b.follow_redirects(*x),
         Setter::ConnectTimeout(ms) => b.connect_timeout(Duration::from_millis(*ms as u64)),
@@ -600,7 +600,7 @@ impl World {
 
 fn setter() -> BoxedStrategy<Setter> {
     prop_oneof![
-        (0u8..3).prop_map(Setter::MaxHeaders),
+        (0u8..5).prop_map(Setter::MaxHeaders),
         (0u8..3).prop_map(Setter::MaxRedirections),
         any::<bool>().prop_map(Setter::Follow),
         (1u16..1000).prop_map(Setter::ConnectTimeout),
